@@ -7,7 +7,7 @@ import time
 
 from . import c19, core, report
 
-NCASES = {'quick': 264, 'thorough': 2200}
+NCASES = {'quick': 231, 'thorough': 2200}
 CASE_TIMEOUT = {'quick': 600.0, 'thorough': 1800.0}
 
 REAL = ["droop.profile.ElectionProfile (parser)", "droop.election.Election (constructor, count, report/dump/json)",
@@ -62,8 +62,11 @@ def run(R, tier, seed):
     pool_lines = set()
     for p in probes:
         pool_lines |= p['lines']
-    tasks = [(R, seed, i, tier) for i in chosen]
-    results = core.fork_map(_work, tasks, timeout=CASE_TIMEOUT[tier], what='C19 case')
+    # longest counts first (better packing of the workers); results are put back into index order
+    tprobe = {p['idx']: p['T'] for p in probes}
+    tasks = [(R, seed, i, tier) for i in sorted(chosen, key=lambda i: (-tprobe.get(i, 0), i))]
+    results = sorted(core.fork_map(_work, tasks, timeout=CASE_TIMEOUT[tier], what='C19 case'),
+                     key=lambda r: r['idx'])
 
     execs = steps = explored = exhaustive = 0
     keys = set()
